@@ -37,9 +37,9 @@ theorem shape_rows_aux (o : Opts) (notes : List Note) (r : Roll) (h : makePianor
   obtain ⟨hne, _, N, _, _, rfl⟩ := (makePianoroll_eq_some o notes r).mp h
   refine ⟨?_, ?_, ?_⟩
   · intro h1 h2
-    simp [rollOf, rowsFull, lowestOf, highestOf, h1, h2]
+    simp [rollOf, rowsFull, lowestOf, highestOf, h1, h2, tbl_lowest, tbl_highest]
   · intro h1 h2
-    simp [rollOf, rowsFull, lowestOf, highestOf, h1, h2]
+    simp [rollOf, rowsFull, lowestOf, highestOf, h1, h2, tbl_lowest, tbl_highest, slicedRows_eq]
   · intro h1
     obtain ⟨lo, hlo⟩ := best?_isSome_of_ne_nil (fun a b : Int => decide (a ≤ b))
       (l := notes.map (·.pitch)) (by simpa using hne)
@@ -56,7 +56,7 @@ theorem shape_rows_aux (o : Opts) (notes : List Note) (r : Roll) (h : makePianor
     · intro h2
       simp [rollOf, rowsFull, lowestOf, highestOf, h1, h2, hlo', hhi']
     · intro h2
-      simp only [rollOf, rowsFull, lowestOf, highestOf, h1, h2, hlo', hhi', if_true, Option.getD_some]
+      simp only [rollOf, rowsFull, lowestOf, highestOf, h1, h2, hlo', hhi', if_true, Option.getD_some, slicedRows_eq]
       omega
 
 theorem cell_value_aux (o : Opts) (notes : List Note) (r : Roll) (h : makePianoroll o notes = some r)
